@@ -54,7 +54,7 @@ def gen_attrs(rng, w, rich=True):
         if kind == 'angle':
             # template expressions and generics: a <...> pair is one attribute name or value, also when glued to the tag's own >
             if rng.random() < 0.5:
-                name = rng.choice(['<?= $sel ?>', '<%= x %>', '<Row>', '<?php echo "a" ?>'])
+                name = rng.choice(['<?= $sel ?>', '<%= x %>', '<Row>', '<?php echo "a" ?>', '<?php echo $this->cls(); ?>', '<%= a > b %>', '<?= $a->b ?>', '<?php body_class(); ?>'])       # (a template section may contain `>`)
                 kind = 'bool'
             else:
                 kind = 'anglevalue'
@@ -74,7 +74,7 @@ def gen_attrs(rng, w, rich=True):
             elif kind == 'sq':
                 val = "'%s'" % rng.choice(['a>b', '"', '', 'x y', '</p>', '<!--'])
             elif kind == 'anglevalue':
-                val = rng.choice(['<%= cls %>', '<?php echo 1 ?>', '<b c>', '<T>'])
+                val = rng.choice(['<%= cls %>', '<?php echo 1 ?>', '<b c>', '<T>', '<?= $o->id ?>', '<%= n > 1 %>'])
             elif kind == 'unq':
                 val = rng.choice(['abc', 'a-b', 'x:y', '1', 'a.b', '#x', 'a=b', '{{x}}', 'a&b', 'foo[0]', '/foo/bar', 'http://x.com/p', 'a/b', '../a.png', 'x//y', '/x'])      # (a value ending in `/` right before `>` would read as `/>`)
             else:
